@@ -208,6 +208,156 @@ theorem zoned_spacing (Lx Ly bmin bmaxx bmaxy : Rat) (hb : 0 < bmin) (hbx : 0 < 
     ∀ l ∈ ls, ∀ f ∈ l, Spaced bmin f :=
   fun l hl f hf => spaced_of_sep hb (biRectangleZonedNested_good hb hbx hby hLx hLy h l hl f hf).2
 
+/-! ### which inputs raise -/
+
+/-- "the side admits at least three rows at the maximum spacing": `⌈L / b_max + 1⌉ ≥ 3 ⇔ b_max < L`. -/
+theorem three_rows_iff (L bmax : Rat) (hb : 0 < bmax) : 3 ≤ nLow id L bmax ↔ bmax < L := by
+  simp only [nLow, id_eq]
+  have : (3 : Int) ≤ (L / bmax + 1).ceil ↔ (2 : Int) < (L / bmax + 1).ceil := by omega
+  rw [this, Rat.lt_ceil_iff]
+  push_cast
+  constructor
+  · intro h
+    have : 1 < L / bmax := by linarith
+    exact (one_lt_div hb).mp this
+  · intro h
+    have := (one_lt_div hb).mpr h
+    linarith
+
+/-- `rectangular` raises (always ZeroDivisionError) exactly for a zero spacing, or when the
+    count loop runs with a count of 1 (`length / (n - 1)`) or on a zero-length long side — none
+    of which happens for positive inputs (`rectangular_inside`). -/
+theorem rectangular_raises_iff (Lx Ly bmin bmax : Rat) :
+    (∃ e, rectangular id Lx Ly bmin bmax = .error e) ↔
+      (bmin = 0 ∨ bmax = 0 ∨
+        (pyRange (nLow id (long Lx Ly) bmax) (nHigh id (long Lx Ly) bmin + 1) ≠ [] ∧
+          ((1 : Int) ∈ pyRange (nLow id (long Lx Ly) bmax) (nHigh id (long Lx Ly) bmin + 1) ∨ long Lx Ly = 0))) := by
+  unfold rectangular
+  simp only []
+  by_cases h1 : bmin = 0 ∨ bmax = 0
+  · rw [if_pos h1]
+    constructor
+    · intro _; rcases h1 with h | h
+      · exact Or.inl h
+      · exact Or.inr (Or.inl h)
+    · intro _; exact ⟨_, rfl⟩
+  · rw [if_neg h1]
+    by_cases h2 : (pyRange (nLow id (long Lx Ly) bmax) (nHigh id (long Lx Ly) bmin + 1) ≠ [] ∧
+          ((1 : Int) ∈ pyRange (nLow id (long Lx Ly) bmax) (nHigh id (long Lx Ly) bmin + 1) ∨ long Lx Ly = 0))
+    · have h2' := h2
+      change (pyRange (nLow id (if Lx ≥ Ly then Lx else Ly) bmax) (nHigh id (if Lx ≥ Ly then Lx else Ly) bmin + 1) ≠ [] ∧
+          ((1 : Int) ∈ pyRange (nLow id (if Lx ≥ Ly then Lx else Ly) bmax) (nHigh id (if Lx ≥ Ly then Lx else Ly) bmin + 1) ∨
+            (if Lx ≥ Ly then Lx else Ly) = 0)) at h2'
+      rw [if_pos h2']
+      exact ⟨fun _ => Or.inr (Or.inr h2), fun _ => ⟨_, rfl⟩⟩
+    · have h2' := h2
+      change ¬ (pyRange (nLow id (if Lx ≥ Ly then Lx else Ly) bmax) (nHigh id (if Lx ≥ Ly then Lx else Ly) bmin + 1) ≠ [] ∧
+          ((1 : Int) ∈ pyRange (nLow id (if Lx ≥ Ly then Lx else Ly) bmax) (nHigh id (if Lx ≥ Ly then Lx else Ly) bmin + 1) ∨
+            (if Lx ≥ Ly then Lx else Ly) = 0)) at h2'
+      rw [if_neg h2']
+      constructor
+      · rintro ⟨e, he⟩; cases he
+      · rintro (h | h | h)
+        · exact absurd (Or.inl h) h1
+        · exact absurd (Or.inr h) h1
+        · exact absurd h h2
+
+/-- `rectangular` and `bi_rectangle_nested` never raise on positive inputs — in particular on
+    lots whose sides admit at least three rows at the maximum spacing. -/
+theorem rectangular_never_raises (Lx Ly bmin bmax : Rat) (hb : 0 < bmin) (hbm : 0 < bmax) (hLx : 0 < Lx) (hLy : 0 < Ly) :
+    ∃ fs, rectangular id Lx Ly bmin bmax = .ok fs :=
+  ⟨_, rectangular_eq hb hbm hLx hLy⟩
+
+theorem bi_rectangle_nested_never_raises (Lx Ly bmin bmaxx bmaxy : Rat) (hb : 0 < bmin) (hbx : 0 < bmaxx)
+    (hby : 0 < bmaxy) (hLx : 0 < Lx) (hLy : 0 < Ly) :
+    ∃ ls, biRectangleNested id Lx Ly bmin bmaxx bmaxy = .ok ls :=
+  ⟨_, biRectangleNested_eq hb hbx hby hLx hLy⟩
+
+/-- **Exactly which positive inputs make `bi_rectangle_zoned_nested` raise.**  With
+    `len₁`, `len₂` the numbers of admissible counts `⌈L/b_max+1⌉ … ⌊L/b_min+1⌋` along the long and
+    the short side:
+    * `len₁ + len₂ ≤ 1`: no loop pass, the result is one empty candidate list;
+    * otherwise, one range empty: `IndexError` (`n_1_values[j]`);
+    * both non-empty, a side with fewer than three rows at the maximum spacing: `ValueError`
+      (`zoned_rectangle`: too many interior boreholes);
+    * both non-empty and at least three rows along both sides: it returns. -/
+theorem zoned_outcomes (Lx Ly bmin bmaxx bmaxy : Rat) (hb : 0 < bmin) (hbx : 0 < bmaxx) (hby : 0 < bmaxy)
+    (hLx : 0 < Lx) (hLy : 0 < Ly) :
+    let b1 := if Lx ≥ Ly then bmaxx else bmaxy
+    let b2 := if Lx ≥ Ly then bmaxy else bmaxx
+    let len1 := (pyRange (nLow id (long Lx Ly) b1) (nHigh id (long Lx Ly) bmin + 1)).length
+    let len2 := (pyRange (nLow id (short Lx Ly) b2) (nHigh id (short Lx Ly) bmin + 1)).length
+    (len1 + len2 ≤ 1 → biRectangleZonedNested id Lx Ly bmin bmaxx bmaxy = .ok [[]]) ∧
+    (2 ≤ len1 + len2 → (len1 = 0 ∨ len2 = 0) →
+        biRectangleZonedNested id Lx Ly bmin bmaxx bmaxy = .error .indexError) ∧
+    (1 ≤ len1 → 1 ≤ len2 → (nLow id (long Lx Ly) b1 < 3 ∨ nLow id (short Lx Ly) b2 < 3) →
+        biRectangleZonedNested id Lx Ly bmin bmaxx bmaxy = .error .valueError) ∧
+    (1 ≤ len1 → 1 ≤ len2 → 3 ≤ nLow id (long Lx Ly) b1 → 3 ≤ nLow id (short Lx Ly) b2 →
+        ∃ ls, biRectangleZonedNested id Lx Ly bmin bmaxx bmaxy = .ok ls) := by
+  intro b1 b2 len1 len2
+  have hb1 : 0 < b1 := by show 0 < (if Lx ≥ Ly then bmaxx else bmaxy); split <;> assumption
+  have hb2 : 0 < b2 := by show 0 < (if Lx ≥ Ly then bmaxy else bmaxx); split <;> assumption
+  rw [biRectangleZonedNested_eq_core]
+  exact zonedCore_cases (trOf Lx Ly) hb hb1 hb2 (short_pos hLx hLy) (short_le_long Lx Ly)
+
+/-- The missing half of the bi-zoned theorems: under the property's precondition (both count
+    ranges non-empty, `b_max < side` along both sides) the generator returns, and what it returns
+    is on the land and `b_min`-separated. -/
+theorem zoned_returns (Lx Ly bmin bmaxx bmaxy : Rat) (hb : 0 < bmin) (hbx : 0 < bmaxx) (hby : 0 < bmaxy)
+    (hLx : 0 < Lx) (hLy : 0 < Ly)
+    (h1 : nLow id (long Lx Ly) (if Lx ≥ Ly then bmaxx else bmaxy) ≤ nHigh id (long Lx Ly) bmin)
+    (h2 : nLow id (short Lx Ly) (if Lx ≥ Ly then bmaxy else bmaxx) ≤ nHigh id (short Lx Ly) bmin)
+    (h3 : (if Lx ≥ Ly then bmaxx else bmaxy) < long Lx Ly) (h4 : (if Lx ≥ Ly then bmaxy else bmaxx) < short Lx Ly) :
+    ∃ ls, biRectangleZonedNested id Lx Ly bmin bmaxx bmaxy = .ok ls ∧
+      ∀ l ∈ ls, ∀ f ∈ l, InLand Lx Ly f ∧ Spaced bmin f := by
+  have hb1 : 0 < (if Lx ≥ Ly then bmaxx else bmaxy) := by split <;> assumption
+  have hb2 : 0 < (if Lx ≥ Ly then bmaxy else bmaxx) := by split <;> assumption
+  obtain ⟨_, _, _, hok⟩ := zoned_outcomes Lx Ly bmin bmaxx bmaxy hb hbx hby hLx hLy
+  obtain ⟨ls, hls⟩ := hok (by rw [length_pyRange]; omega) (by rw [length_pyRange]; omega)
+    ((three_rows_iff _ _ hb1).mpr h3) ((three_rows_iff _ _ hb2).mpr h4)
+  refine ⟨ls, hls, fun l hl f hf => ?_⟩
+  obtain ⟨a, b⟩ := biRectangleZonedNested_good hb hbx hby hLx hLy hls l hl f hf
+  exact ⟨a, spaced_of_sep hb b⟩
+
+/-! ### rounding-robust corollary for the binary64 instance -/
+
+/-- The model's binary64 rounding has relative error at most `2⁻⁵³` per operation. -/
+theorem fl64_relative_error (q : Rat) : |fl64 q - q| ≤ |q| / 9007199254740992 := fl64_relErr q
+
+/-- `2⁻⁵¹`: bound on the accumulated relative error of a coordinate (three roundings). -/
+def eps51 : Rat := 1 / 2251799813685248
+
+theorem delta_fl64_le : delta (1 / 9007199254740992) ≤ eps51 := by
+  unfold delta bump eps51; norm_num
+
+/-- **The rectangle theorems for the binary64 instance itself.**  For positive inputs none of
+    whose `floor`/`ceil` arguments is within `7·2⁻⁵³·(argument)` of an integer (the model's
+    near-boundary flag, with a margin 10⁴ times smaller), `rectangular` computed in binary64
+    (`R = fl64`) does not raise, returns the list shape of the exact instance, every coordinate
+    within relative `2⁻⁵¹` of the exact one; every candidate lies in
+    `[0, (1+2⁻⁵¹)·length] × [0, (1+2⁻⁵¹)·width]` and keeps its boreholes
+    `b_min − 2⁻⁵⁰·max(length, width)` apart. -/
+theorem rectangular_binary64_robust (Lx Ly bmin bmax : Rat) (hb : 0 < bmin) (hbm : 0 < bmax) (hLx : 0 < Lx) (hLy : 0 < Ly)
+    (c1 : ∀ k : Int, 3 * (1 / 9007199254740992) * (long Lx Ly / bmax + 1) < |long Lx Ly / bmax + 1 - (k : Rat)|)
+    (c2 : ∀ k : Int, 3 * (1 / 9007199254740992) * (long Lx Ly / bmin + 1) < |long Lx Ly / bmin + 1 - (k : Rat)|)
+    (c3 : ∀ n ∈ pyRange (nLow id (long Lx Ly) bmax) (nHigh id (long Lx Ly) bmin + 1), ∀ k : Int,
+        7 * (1 / 9007199254740992) * rectN2Arg id (long Lx Ly) (short Lx Ly) n
+          < |rectN2Arg id (long Lx Ly) (short Lx Ly) n - (k : Rat)|) :
+    ∃ fsR fs, rectangular fl64 Lx Ly bmin bmax = .ok fsR ∧ rectangular id Lx Ly bmin bmax = .ok fs ∧
+      List.Forall₂ (List.Forall₂ (NearP eps51)) fsR fs ∧
+      ∀ f ∈ fsR, InLand ((1 + eps51) * Lx) ((1 + eps51) * Ly) f ∧ Sep (bmin - 2 * eps51 * max Lx Ly) f := by
+  obtain ⟨fsR, fs, e1, e2, hn, hg⟩ := rectangular_robust fl64_RelErr (by norm_num) (by norm_num) hb hbm hLx hLy c1 c2 c3
+  have hd := delta_fl64_le
+  have hmax : 0 ≤ max Lx Ly := le_trans (le_of_lt hLx) (le_max_left _ _)
+  refine ⟨fsR, fs, e1, e2, ?_, ?_⟩
+  · exact List.Forall₂.imp (fun _ _ h => List.Forall₂.imp (fun _ _ h' => ⟨h'.1.mono hd, h'.2.mono hd⟩) h) hn
+  · intro f hf
+    obtain ⟨a, b⟩ := hg f hf
+    refine ⟨a.mono ?_ ?_, b.mono ?_⟩
+    · nlinarith
+    · nlinarith
+    · nlinarith
+
 /-! ### non-vacuity and regression witnesses -/
 
 def sizes : Py (List Field) → List Nat
@@ -244,5 +394,41 @@ example : (biRectangleZonedNested id 40 85 5 12 12).toOption.map
       (fun l => l.flatten.flatten.all (fun p => decide (0 ≤ p.1 ∧ p.1 ≤ 40 ∧ 0 ≤ p.2 ∧ p.2 ≤ 85))
                 && l.flatten.flatten.any (fun p => decide (p.1 = 40))) = some true := by
   decide +kernel
+
+
+def errOf {α : Type} : Py α → Option PyErr
+  | .ok _ => none
+  | .error e => some e
+
+/-- `zoned_outcomes`, the three raising/empty outcomes on concrete lots: 30 × 20 with
+    `b_min = b_max_x = 4` (empty long-side range) raises IndexError; 23 × 9 with `b_max_y = 10.1`
+    (two rows only) raises ValueError; 10 × 10 with `b_min = 6`, `b_max = 7` returns `[[]]`. -/
+example : errOf (biRectangleZonedNested id 30 20 4 4 9) = some .indexError ∧
+    errOf (biRectangleZonedNested id 23 9 (23 / 10) (28 / 10) (101 / 10)) = some .valueError ∧
+    sizes2 (biRectangleZonedNested id 10 10 6 7 7) = [[]] ∧
+    errOf (biRectangleZonedNested id 10 10 6 7 7) = none := by
+  decide +kernel
+
+/-- Non-vacuity of the hypotheses: the 40 × 85 lot with `b_min = 6`, `b_max = 10`
+    (`85/10 + 1 = 9.5`, `85/6 + 1 = 15.17`, rows `40(n−1)/85 + 1` for `n = 10 … 15`). -/
+example : ∃ fsR fs, rectangular fl64 40 85 6 10 = .ok fsR ∧ rectangular id 40 85 6 10 = .ok fs ∧
+    List.Forall₂ (List.Forall₂ (NearP eps51)) fsR fs ∧
+    ∀ f ∈ fsR, InLand ((1 + eps51) * 40) ((1 + eps51) * 85) f ∧ Sep (6 - 2 * eps51 * max 40 85) f := by
+  have hl : long 40 85 = 85 := by unfold long; norm_num
+  have hs : short 40 85 = 40 := by unfold short; norm_num
+  have hr : pyRange (nLow id 85 10) (nHigh id 85 6 + 1) = [10, 11, 12, 13, 14, 15] := by decide +kernel
+  apply rectangular_binary64_robust 40 85 6 10 (by norm_num) (by norm_num) (by norm_num) (by norm_num)
+  · rw [hl]; exact clear_of_between (by norm_num) 9 (by norm_num) (by norm_num)
+  · rw [hl]; exact clear_of_between (by norm_num) 15 (by norm_num) (by norm_num)
+  · rw [hl, hs, hr]
+    intro n hn
+    simp only [List.mem_cons, List.not_mem_nil, or_false] at hn
+    rcases hn with rfl | rfl | rfl | rfl | rfl | rfl <;> rw [rectN2Arg_eq]
+    · exact clear_of_between (by norm_num) 5 (by norm_num) (by norm_num)
+    · exact clear_of_between (by norm_num) 5 (by norm_num) (by norm_num)
+    · exact clear_of_between (by norm_num) 6 (by norm_num) (by norm_num)
+    · exact clear_of_between (by norm_num) 6 (by norm_num) (by norm_num)
+    · exact clear_of_between (by norm_num) 7 (by norm_num) (by norm_num)
+    · exact clear_of_between (by norm_num) 7 (by norm_num) (by norm_num)
 
 end GHEVerif.C03
